@@ -350,5 +350,26 @@ func SolveAll(obls []*Obligation, workDir string, timeoutS, seed, workers int, a
 		}()
 	}
 	wg.Wait()
+	// A timeout is "undecided", and on a loaded machine (other checks, other processes on the same cores) an obligation
+	// that takes half a second alone can run into it. A few timeouts are therefore tried once more, one after the other
+	// with four times the time, before they are reported; many timeouts are the signature of a function that no longer
+	// fits its contract and are reported as they are.
+	var retry []int
+	for i := range out {
+		if out[i].O != nil && !out[i].OK && out[i].O.Expect != "sat" && out[i].Res.Status == "timeout" {
+			retry = append(retry, i)
+		}
+	}
+	if len(retry) > 0 && len(retry) <= 6 {
+		for _, i := range retry {
+			o := out[i].O
+			script := o.B.Script([]string{o.Reach, not(o.Goal)}, false)
+			r := Solve(workDir, o.Name()+".retry", script, 4*timeoutS, seed, false)
+			if r.Status == o.Expect && !r.Disagree {
+				r.Detail = "decided at the second attempt (the first one timed out)\n" + r.Detail
+				out[i] = OblOutcome{O: o, Res: r, OK: true}
+			}
+		}
+	}
 	return out
 }
